@@ -152,6 +152,26 @@ def _eval_eof(case):
         nt = cancelled and 0 < sent < len(content)
         if nt:
             classes.append("eof:cancel-midfile")
+        # acknowledged mode: the EOF PDUs re-sent by the positive ACK procedure (nobody answers here) are EOF PDUs the
+        # source places on the link as well: same size, same checksum of the bytes sent
+        if not vs and sim.eff_mode(cfg) == "ACK" and not s.src.idle():
+            resent = 0
+            for _ in range(3):
+                d = sim.CLOCK.next_deadline()
+                if d is None or s.src.idle() or s.src.internal_error:
+                    break
+                sim.CLOCK.now = d + 1
+                for p in s.src.call(None):
+                    if sim.pdu_kind(p) == "EOF" and int(p.condition_code) == int(eof.condition_code):
+                        resent += 1
+                        if bytes(p.file_checksum) != want or p.file_size != sent:
+                            which = "cancel" if cancelled else "normal"
+                            vs.append(verdict("eof-checksum", f"C09/resent-eof-checksum/{cfg['crc_type']}/{which}", f"sent {sent} of {len(content)}: re-sent EOF size {p.file_size} checksum {bytes(p.file_checksum).hex()} want {want.hex()}"))
+                            break
+                if vs:
+                    break
+            if resent:
+                classes.append("eof:resent-checked")
         return Result(vs, nt, classes, {"sent": sent, "size": len(content), "cancelled": cancelled})
     finally:
         s.close()
@@ -182,7 +202,7 @@ def shard(ctx):
 
 def selftest(merged, tier):
     c = merged["classes"]
-    for k in ("type:MODULAR", "type:CRC_32C", "prefix<len", "chunk-not-dividing", "small-exhaustive", "eof:cancel-midfile"):
+    for k in ("type:MODULAR", "type:CRC_32C", "prefix<len", "chunk-not-dividing", "small-exhaustive", "eof:cancel-midfile", "eof:resent-checked"):
         if c.get(k, 0) < 20:
             return f"class {k} nearly empty: {c.get(k, 0)}"
     return None
